@@ -56,7 +56,9 @@ def codes():
 
 
 INVALID_NAMES = ['', '_', 'noscore', '_a b', '_a\tb', '_a\nb', '_\x01', '_a\x7f', '_a\ufffe', '_a\ud800',
-                 '_a\udc00b', '_a\ufdd0', '_' + 'x' * 2048, '_a\U0001fffe']
-VALID_EDGE_NAMES = ['_' + 'x' * 2047, '_\U0010fffd', '_a\U00010000b', '_#', '_$', "_'", '_;', '_[', '_{']
-INVALID_CODES = ['', 'a b', 'a\tb', 'a\n', '\x02', 'a\x7f', 'a\uffff', 'a\ud800', '\udc00', 'a\ufdef', 'c' * 2044]
-VALID_EDGE_CODES = ['c' * 2043, '_', '#x', '$', "'", ';', '[', '\U0001f600', 'data_', 'loop_']
+                 '_a\udc00b', '_a\ufdd0', '_' + 'x' * 2048, '_a\U0001fffe',
+                 '_' + '\U0001f600' * 2048]
+# the limits count characters (code points), not UTF-16 units: names made of supplementary characters reach them too
+VALID_EDGE_NAMES = ['_' + 'x' * 2047, '_' + '\U0001f600' * 2047, '_' + '\U00010428' * 1030 + 'q', '_\U0010fffd', '_a\U00010000b', '_#', '_$', "_'", '_;', '_[', '_{']
+INVALID_CODES = ['', 'a b', 'a\tb', 'a\n', '\x02', 'a\x7f', 'a\uffff', 'a\ud800', '\udc00', 'a\ufdef', 'c' * 2044, '\U0001f600' * 2044]
+VALID_EDGE_CODES = ['c' * 2043, '\U0001f600' * 2043, '\U00010428' * 1025, '_', '#x', '$', "'", ';', '[', '\U0001f600', 'data_', 'loop_']
